@@ -57,11 +57,7 @@ func recsText(recs []string, noNL bool) string {
 }
 
 // runImpl: cwd is the harness's private temp dir.
-var tExec, tTotal time.Duration
-
 func runImpl(c *Case) (res implResult) {
-	tt := time.Now()
-	defer func() { tTotal += time.Since(tt) }()
 	want := map[string]string{}
 	for _, f := range c.Files {
 		if !strings.HasPrefix(f.Name, "./") {
@@ -99,9 +95,7 @@ func runImpl(c *Case) (res implResult) {
 	funcs := map[string]any{"H": func(s string) string { return hx.HexS(s) }}
 	cfg := &interp.Config{Stdin: in, Args: c.Args, Argv0: "goawk", Funcs: funcs, NoArgVars: c.NoArgVars, Environ: []string{},
 		Error: new(strings.Builder)}
-	t0 := time.Now()
 	rr := runAwkCtx(c.P.awk(), cfg, &parser.ParserConfig{Funcs: funcs})
-	tExec += time.Since(t0)
 	res.Raw = string(rr.Out)
 	if rr.Panic != nil {
 		res.Panic = fmt.Sprint(rr.Panic)
@@ -373,7 +367,8 @@ func main() {
 		os.Exit(code)
 	}
 
-	r := hx.NewRand(o.Seed)
+	// hx.NewRand(k+1) is hx.NewRand(k) shifted by one draw; mix the seed so that seeds give unrelated streams
+	r := hx.NewRand(hx.NewRand(o.Seed).U64())
 	cases := genSystematic()
 	n := o.N
 	if n == 0 {
@@ -400,7 +395,6 @@ func main() {
 		impls[i] = runImpl(c)
 		lines[i] = c.wire()
 	}
-	fmt.Fprintln(os.Stderr, "impl time: exec", tExec, "total", tTotal)
 	var models []string
 	if modelrun != "" {
 		models, err = hx.ModelEval(modelrun, lines)
